@@ -166,6 +166,12 @@ Section Rel.
       destruct (ltb hi vi); [exact Hhi|exact Hxy].
   Qed.
 
+  (* ---- vabs = map(IsNone::map(|v| v.abs())): the two dictionaries' `imap` must be related ---- *)
+  Definition imap_rel (f : I -> I) : Prop := forall a b, mrel a b -> res1_rel (imap d1 f a) (imap d2 f b).
+  Theorem vabs_rel (iabs : I -> I) xs1 xs2 :
+    imap_rel iabs -> Forall2 mrel xs1 xs2 -> res_rel (vabs d1 iabs xs1) (vabs d2 iabs xs2).
+  Proof. intros Hi HF. unfold vabs. apply mapM_rel; assumption. Qed.
+
   (* ---- vpct_change: an f64 result, hence an equality ---- *)
   Section Pct.
     Context {F : Type} (o : FOps F) (cast1 : T1 -> F) (cast2 : T2 -> F).
@@ -216,6 +222,17 @@ Section FloatOpt.
 
   Lemma none_rel_float_opt : none_rel (dict_float inan nanv) (dict_opt inan).
   Proof. unfold none_rel. cbn. split; [exact Hnan|intros C; discriminate]. Qed.
+
+  (* IsNone::map for f64 and for Option<f64> (from_inner canonicalises) are related for every function that
+     maps null to null (abs does: ExtLaws.abs_nan) *)
+  Lemma imap_rel_float_opt (f : A -> A) :
+    (forall x, inan x = true -> inan (f x) = true) -> imap_rel (dict_float inan nanv) (dict_opt inan) f.
+  Proof.
+    intros Hf a b [Hn Hu]. cbn in Hn, Hu |- *. destruct b as [y|].
+    - specialize (Hu eq_refl). injection Hu as ->. unfold mrel. cbn. destruct (inan (f y)); split; try reflexivity;
+        intros C; try discriminate; reflexivity.
+    - unfold mrel. cbn. split; [apply Hf; exact Hn|intros C; discriminate].
+  Qed.
 
   Lemma mrel_float_opt (xs : list A) :
     Forall2 (mrel (dict_float inan nanv) (dict_opt inan)) xs (map (fun x => if inan x then None else Some x) xs).
